@@ -224,3 +224,113 @@ def ref_decode_body(text, limit=MAX_PACKETS):
     if open_why:
         return ('open', open_why)
     return ('ok', out)
+
+
+# ---------------------------------------------------------------------------------------------
+# JavaScript string literals (ECMAScript 2019+) and the JSONP envelope
+# ---------------------------------------------------------------------------------------------
+class JsSyntaxError(Exception):
+    pass
+
+
+_SINGLE = {'b': '\b', 'f': '\f', 'n': '\n', 'r': '\r', 't': '\t', 'v': '\v', '0': '\0'}
+_LINE_TERMINATORS = '\n\r  '
+_HEX = '0123456789abcdefABCDEF'
+
+
+def js_string_literal(src, pos):
+    """Evaluate the double-quoted JS string literal starting at src[pos] == '"'.
+    Returns (value, index after the closing quote). Raises JsSyntaxError."""
+    if pos >= len(src) or src[pos] != '"':
+        raise JsSyntaxError('string literal expected at %d' % pos)
+    units = []          # UTF-16 code units
+
+    def put(ch):
+        o = ord(ch)
+        if o >= 0x10000:
+            o -= 0x10000
+            units.append(0xD800 + (o >> 10))
+            units.append(0xDC00 + (o & 0x3FF))
+        else:
+            units.append(o)
+
+    i = pos + 1
+    n = len(src)
+    while True:
+        if i >= n:
+            raise JsSyntaxError('unterminated string literal')
+        c = src[i]
+        if c == '"':
+            i += 1
+            break
+        if c in '\n\r':
+            raise JsSyntaxError('line terminator inside string literal at %d' % i)
+        if c != '\\':
+            put(c)
+            i += 1
+            continue
+        i += 1
+        if i >= n:
+            raise JsSyntaxError('unterminated escape')
+        e = src[i]
+        if e in _LINE_TERMINATORS:           # line continuation
+            if e == '\r' and i + 1 < n and src[i + 1] == '\n':
+                i += 1
+            i += 1
+            continue
+        if e == 'x':
+            h = src[i + 1:i + 3]
+            if len(h) != 2 or any(ch not in _HEX for ch in h):
+                raise JsSyntaxError('bad \\x escape')
+            units.append(int(h, 16))
+            i += 3
+            continue
+        if e == 'u':
+            if src[i + 1:i + 2] == '{':
+                j = src.find('}', i + 2)
+                h = src[i + 2:j] if j > 0 else ''
+                if not h or any(ch not in _HEX for ch in h) or int(h, 16) > 0x10FFFF:
+                    raise JsSyntaxError('bad \\u{} escape')
+                put(chr(int(h, 16))) if not 0xD800 <= int(h, 16) <= 0xDFFF \
+                    else units.append(int(h, 16))
+                i = j + 1
+                continue
+            h = src[i + 1:i + 5]
+            if len(h) != 4 or any(ch not in _HEX for ch in h):
+                raise JsSyntaxError('bad \\u escape')
+            units.append(int(h, 16))
+            i += 5
+            continue
+        if e == '0':
+            if src[i + 1:i + 2] and src[i + 1] in '0123456789':
+                raise JsSyntaxError('octal escape')     # sloppy-mode legacy, not relied upon
+            units.append(0)
+            i += 1
+            continue
+        if e in '123456789':
+            raise JsSyntaxError('octal / decimal escape')
+        if e in _SINGLE:
+            units.append(ord(_SINGLE[e]))
+            i += 1
+            continue
+        put(e)                                # NonEscapeCharacter: itself
+        i += 1
+    raw = b''.join(u.to_bytes(2, 'little') for u in units)
+    return raw.decode('utf-16-le', 'surrogatepass'), i
+
+
+def utf16_equal(a, b):
+    """String equality as JavaScript sees it (UTF-16 code units)."""
+    return a.encode('utf-16-le', 'surrogatepass') == b.encode('utf-16-le', 'surrogatepass')
+
+
+def parse_jsonp(body):
+    """body must be exactly  ___eio[<digits>]("<string literal>");  -> (index, value)."""
+    import re
+    m = re.match(r'___eio\[(-?\d+)\]\(', body)
+    if not m:
+        raise JsSyntaxError('body does not start with ___eio[<index>](')
+    value, end = js_string_literal(body, m.end())
+    if body[end:] != ');':
+        raise JsSyntaxError('text after the string literal is %r, not ");"' % body[end:end + 20])
+    return int(m.group(1)), value
